@@ -147,12 +147,20 @@ func (s rdNumber[T]) Get() (T, bool) {
 	return s.reader.load(s.txn.cursor)
 }
 
+// present returns the rows of the selection which hold a value in the chunk
+func (s rdNumber[T]) present(chunk commit.Chunk, index bitmap.Bitmap) bitmap.Bitmap {
+	var rows bitmap.Bitmap
+	rows = index.Clone(&rows)
+	rows.And(s.reader.chunks[chunk].fill)
+	return rows
+}
+
 // Sum computes a sum of the column values selected by this transaction
 func (s rdNumber[T]) Sum() (sum T) {
 	s.txn.initialize()
 	s.txn.rangeRead(func(chunk commit.Chunk, index bitmap.Bitmap) {
 		if int(chunk) < len(s.reader.chunks) {
-			sum += bitmap.Sum(s.reader.chunks[chunk].data, index)
+			sum += bitmap.Sum(s.reader.chunks[chunk].data, s.present(chunk, index))
 		}
 	})
 	return sum
@@ -164,8 +172,9 @@ func (s rdNumber[T]) Avg() float64 {
 	s.txn.initialize()
 	s.txn.rangeRead(func(chunk commit.Chunk, index bitmap.Bitmap) {
 		if int(chunk) < len(s.reader.chunks) {
-			sum += bitmap.Sum(s.reader.chunks[chunk].data, index)
-			ct += index.Count()
+			rows := s.present(chunk, index)
+			sum += bitmap.Sum(s.reader.chunks[chunk].data, rows)
+			ct += rows.Count()
 		}
 	})
 	return float64(sum) / float64(ct)
@@ -176,7 +185,7 @@ func (s rdNumber[T]) Min() (min T, ok bool) {
 	s.txn.initialize()
 	s.txn.rangeRead(func(chunk commit.Chunk, index bitmap.Bitmap) {
 		if int(chunk) < len(s.reader.chunks) {
-			if v, hit := bitmap.Min(s.reader.chunks[chunk].data, index); hit && (v < min || !ok) {
+			if v, hit := bitmap.Min(s.reader.chunks[chunk].data, s.present(chunk, index)); hit && (v < min || !ok) {
 				min = v
 				ok = true
 			}
@@ -190,7 +199,7 @@ func (s rdNumber[T]) Max() (max T, ok bool) {
 	s.txn.initialize()
 	s.txn.rangeRead(func(chunk commit.Chunk, index bitmap.Bitmap) {
 		if int(chunk) < len(s.reader.chunks) {
-			if v, hit := bitmap.Max(s.reader.chunks[chunk].data, index); hit && (v > max || !ok) {
+			if v, hit := bitmap.Max(s.reader.chunks[chunk].data, s.present(chunk, index)); hit && (v > max || !ok) {
 				max = v
 				ok = true
 			}
